@@ -84,6 +84,9 @@ class C17(Prop):
                 files.append({"path": "classes/1.10.yml", "raw": "applications: [from_num_class]\n"})
                 files[2]["raw"] = "classes: [mid, 1.10]\napplications: %s\n" % lst()
             yield {"op": "inventory", "config": {}, "files": files, "fam": "raw_scalars"}
+        from .. import geninv2 as _GI2
+        for j in range(30 if tier == "quick" else 600):
+            yield _GI2.numeric_names(Rng(seed, "C17:num", j))
         # the node's list is the accumulation of the per-file lists in merge order (with C01)
         M = 80 if tier == "quick" else 2000
         apps = ["app_a", "app_b", "app_c", "~app_a", "~app_b", "~app_c", "app_d", "~~x"]
